@@ -10,7 +10,7 @@ rsync -a --exclude /target --exclude /.git /repo/ $R/
 ( cd $R && git init -q . >/dev/null 2>&1 && git apply $D/patch.diff ) || { echo "PATCH DOES NOT APPLY: $N"; exit 3; }
 cd "$(dirname "$0")/.."
 for p in "$@"; do
-  out=$(VERIF_REPO=$R VERIF_OUT=$O VERIF_NO_NATIVE=1 ./check $p --tier $TIER 2>&1 | grep -v "^WARNING")
+  out=$(VERIF_REPO=$R VERIF_OUT=$O VERIF_NO_NATIVE=1 ./check $p --tier $TIER $MUT_ARGS 2>&1 | grep -v "^WARNING")
   v=$(echo "$out" | grep -c "^VIOLATION")
   echo "== $N $p violations=$v :: $(echo "$out" | grep "^FAILED-OBLIGATION" | sed 's/FAILED-OBLIGATION property=[A-Z0-9]* //' | cut -c1-260 | head -3 | tr '\n' '|') $(echo "$out" | grep "^UNDECIDED" | cut -c1-200 | head -2 | tr '\n' '|') $(echo "$out" | tail -1)"
 done
